@@ -388,6 +388,76 @@ def _calls(repo, rep):
                   "macro call with a copy of the scope, then "
                   "econtext.update(rcontext)", construct="call-merge",
                   where=L.where(g))
+        # unconditional: a re-assigned global changes no length or key set
+        uncond = False
+        if upd >= 0:
+            it, conds, path = lin.rows[upd]
+            top = [st for st in it.tree.body if isinstance(st, ast.Expr) and
+                   L.match(L.pat("econtext.update(rcontext)", "expr"),
+                           st.value) is not None]
+            uncond = bool(top) and not conds and not any(
+                isinstance(n, A.Py) and n.kind in ("If", "While", "Try",
+                                                   "ExceptHandler")
+                for n, fld in path)
+        rep.check(uncond, "R09.3", g.qualname, "the merge of the globals "
+                  "into the caller's scope is unconditional (a macro may "
+                  "re-assign an existing global)",
+                  construct="merge-unconditional", where=L.where(g))
+    # the symbols 'macros' / 'template' of a macro body are those of the
+    # template that defines it: they are compiled as builtins and looked up
+    # in the variable scope first, and the scope is copied into every macro
+    # call -- so render() must not seed the scope with a builtin's name
+    bnames = set()
+    for q in (TPL + "PageTemplate._builtins",
+              TPL + "PageTemplateFile._builtins"):
+        bf = repo.func(q)
+        for n in ast.walk(bf.node):
+            if isinstance(n, ast.Dict):
+                bnames |= {k.value for k in n.keys
+                           if isinstance(k, ast.Constant)}
+            elif isinstance(n, ast.Assign):
+                for t in n.targets:
+                    if isinstance(t, ast.Subscript) and isinstance(
+                            t.slice, ast.Constant):
+                        bnames.add(t.slice.value)
+    if not {"macros", "template"} <= bnames:
+        raise AnalysisError("builtins of PageTemplate not found: %s" % bnames)
+    for q in (TPL + "PageTemplate.render",
+              "chameleon.template.BaseTemplate.render"):
+        rf = repo.func(q)
+        seeded = set()
+        alias = {"_kw", "__kw", "vars", "kwargs"}
+        for n in ast.walk(rf.node):
+            if isinstance(n, ast.Assign) and isinstance(
+                    n.value, ast.Attribute) and n.value.attr in (
+                        "setdefault", "__setitem__") and \
+                    isinstance(n.targets[0], ast.Name):
+                alias.add(n.targets[0].id)
+        for n in ast.walk(rf.node):
+            if isinstance(n, ast.Call) and n.args and isinstance(
+                    n.args[0], ast.Constant):
+                fn = src(n.func)
+                if fn in alias or fn.endswith(".setdefault") or \
+                        fn.endswith(".__setitem__"):
+                    seeded.add(n.args[0].value)
+            elif isinstance(n, ast.Assign):
+                for t in n.targets:
+                    if isinstance(t, ast.Subscript) and isinstance(
+                            t.slice, ast.Constant) and isinstance(
+                                t.value, ast.Name):
+                        seeded.add(t.slice.value)
+            elif isinstance(n, ast.Call) and src(n.func).endswith(".update"):
+                for k in n.keywords:
+                    if k.arg:
+                        seeded.add(k.arg)
+        hit = sorted(x for x in seeded if x in bnames)
+        rep.check(not hit, "R09.3", rf.qualname, "render() seeds the "
+                  "variable scope with private names only (%s): a builtin "
+                  "symbol (%s) placed there would follow the scope into "
+                  "every macro call and shadow the defining template's own"
+                  % (sorted(seeded), sorted(bnames)),
+                  construct="scope-seeds", where=L.where(rf),
+                  detail="seeds %s" % hit)
     # define-macro: stored, and rendered in place through an internal use
     eff = [it for it, c in tr if isinstance(it, A.Effect)
            and it.kind == "setitem" and it.target == "self._macros"]
